@@ -187,9 +187,9 @@ func (g *guard) ReleaseTreasureGuard(guardID ID) {
 
 	if len(g.waitForUnlock) > 0 && g.waitForUnlock[0] == int64(guardID) {
 		g.waitForUnlock = g.waitForUnlock[1:]
-		if len(g.waitForUnlock) == 0 {
-			atomic.StoreInt64(&g.largestGuardID, 0)
-		}
+		// The ID counter is deliberately NOT reset when the queue empties: guard IDs must stay
+		// unique for the lifetime of the guard, otherwise a duplicate or stale release would match
+		// (and remove) the ID that was handed to the next holder.
 		g.cond.Broadcast()
 		if verifhook.Enabled {
 			verifhook.Trace("guard.rel", "g", g, "id", int64(guardID), "popped", true, "queue", append([]int64(nil), g.waitForUnlock...))
